@@ -66,6 +66,14 @@ def history_clause(ctx):
     ctx.tlc("Gen_C01H", "Gen_C01H_%s.cfg" % ctx.tier, label="D cache policy 'never' => HistoryIndependent; F histories")
     ctx.tlc("Gen_C01H", "MC_C01_cache_on_success.cfg", expect_violation=True, label="D policy 'on_success' breaks HistoryIndependent")
     ctx.tlc("Gen_C01H", "MC_C01_cache_always.cfg", expect_violation=True, label="D policy 'always' breaks HistoryIndependent")
+    if ctx.tier == "thorough":
+        # unbounded: the inductive invariant "nothing is ever cached /\ the last step reports L1" (histories of any length)
+        ctx.apalache("PatternCacheInd", ["--cinit=CInitNever", "--init=Init", "--next=Next", "--inv=IndInv", "--length=0"],
+                     label="D Init => IndInv (policy never)")
+        ctx.apalache("PatternCacheInd", ["--cinit=CInitNever", "--init=IndInit", "--next=Next", "--inv=IndInv", "--length=1"],
+                     label="D IndInv /\\ Next => IndInv' (policy never, unbounded histories)")
+        ctx.apalache("PatternCacheInd", ["--cinit=CInitStore", "--init=Init", "--next=Next", "--inv=StepOK", "--length=3"],
+                     expect_error=True, label="D policy on_success: counterexample within 3 steps")
     cases = os.path.join(ctx.scratch, "cases_hist.ndjson")
     n = ctx.unquote(ctx.spec("cases_hist.ndjson"), cases)
     log("[gen] %d histories" % n)
